@@ -6,4 +6,10 @@ p=os.path.join(H,'DESIGN.md'); s=open(p).read()
 a='<!-- SEEDS2 BEGIN -->'; b='<!-- SEEDS2 END -->'
 i=s.index(a)+len(a); j=s.index(b)
 open(p,'w').write(s[:i]+'\n'+t+s[j:])
+t2=subprocess.run(['python3', os.path.join(H,'tools','status_table.py')],capture_output=True,text=True).stdout
+s=open(p).read()
+a='<!-- STATUS BEGIN -->'; b='<!-- STATUS END -->'
+if a in s:
+    i=s.index(a)+len(a); j=s.index(b)
+    open(p,'w').write(s[:i]+'\n'+t2+s[j:])
 print('refreshed')
